@@ -13,7 +13,8 @@ RULE = ('(i) exhaustive decision table: skipped x rate in {-1, 0, 0.3, 1, 1.5} x
         'from inside an intercepted body) x ignore-forcing x discard (none / from the operation / from inside a body) x '
         'outcome (return / ordinary exception / interrupt) x operation kind (instance / class-level), every row run '
         'against a spy cassette; (ii) long seeded histories at fractional rates {0.1, 0.5, 0.9}: the same seed twice, '
-        'paired histories that differ only in operation content and outcome, and Hypothesis-generated histories mixing '
+        'paired histories that differ only in operation content and outcome, the same histories with every operation on '
+        'its own thread and on a pool of three threads, and Hypothesis-generated histories mixing '
         'classes with different parameters where forced runs are followed by unforced runs of other classes; (iii) the '
         'S3 cassette with a size-based sampling calculator returning the same ratios, observed as bucket writes. '
         'Oracle: skipped => no recording created; discard => aborted; forced and not ignoring => saved; rate >= 1 => '
@@ -212,9 +213,10 @@ def table(ctx):
 
 # ---- histories
 
-def run_history(rate, seed, n, vary):
+def run_history(rate, seed, n, vary, threads=None):
     """n operations of one class at a fractional rate; vary=True changes content and outcome per operation.
-    Returns the decision sequence as a string of S/A."""
+    threads: None = all on the calling thread; 'per-op' = every operation on its own (joined) thread; int k = round
+    robin over a pool of k long-lived threads. Returns the decision sequence as a string of S/A."""
     from playback.tape_recorder import TapeRecorder
     cas = null_spy()
     rec = TapeRecorder(cas, random_seed=seed)
@@ -227,9 +229,56 @@ def run_history(rate, seed, n, vary):
         if vary:
             script['content'] = i % 7
             script['outcome'] = ['return', 'raise', 'return', 'interrupt', 'raise'][i % 5]
-        run_op(cls, script)
+        if threads is None:
+            run_op(cls, script)
+        elif threads == 'per-op':
+            import threading
+            t = threading.Thread(target=run_op, args=(cls, script))
+            t.start()
+            t.join()
+        else:
+            pool_run(threads, i, lambda: run_op(cls, script))
         out.append('S' if decision(cas.log) == 'save' else 'A')
+    pool_close()
     return ''.join(out)
+
+
+_POOL = {}
+
+
+def pool_run(k, i, fn):
+    """Run fn on thread (i mod k) of a pool of k long-lived threads and wait for it."""
+    import threading
+    import queue
+    if _POOL.get('k') != k:
+        pool_close()
+        _POOL['k'] = k
+        _POOL['qs'] = [queue.Queue() for _ in range(k)]
+
+        def loop(q):
+            while True:
+                item = q.get()
+                if item is None:
+                    return
+                f, done = item
+                try:
+                    f()
+                finally:
+                    done.set()
+        _POOL['ts'] = [threading.Thread(target=loop, args=(q,), daemon=True) for q in _POOL['qs']]
+        for t in _POOL['ts']:
+            t.start()
+    done = threading.Event()
+    _POOL['qs'][i % k].put((fn, done))
+    done.wait(30)
+
+
+def pool_close():
+    for q in _POOL.get('qs', []):
+        q.put(None)
+    for t in _POOL.get('ts', []):
+        t.join(5)
+    _POOL.clear()
 
 
 def check_history(ctx, case):
@@ -248,6 +297,19 @@ def check_history(ctx, case):
     if abs(kept - rate) > 5 * sigma:
         raise Violation('kept fraction %.4f over %d decisions at rate %s is outside 5 sigma (%.4f)' % (
             kept, n, rate, 5 * sigma), 'fraction')
+    # the policy holds whichever threads run the operations (thread per request, worker pool)
+    m = min(n, 1200 if ctx.quick else 6000)
+    for placement in ('per-op', 3):
+        t1 = run_history(rate, seed, m, vary=False, threads=placement)
+        if t1 != run_history(rate, seed, m, vary=False, threads=placement):
+            raise Violation('same seed, same history, same thread placement (%r): different decisions' % (placement,),
+                            'seed')
+        kept_t = t1.count('S') / float(m)
+        sig = math.sqrt(rate * (1 - rate) / m)
+        if abs(kept_t - rate) > 5 * sig:
+            raise Violation('kept fraction %.4f over %d decisions at rate %s with operations run on %s is outside 5 '
+                            'sigma (%.4f)' % (kept_t, m, rate, 'one thread per operation' if placement == 'per-op'
+                                              else 'a pool of %d threads' % placement, 5 * sig), 'fraction-threads')
     other = run_history(rate, seed + 1, min(n, 2000), vary=False)
     if other == a[:len(other)] and 0.05 < rate < 0.95:
         raise Violation('different seeds gave identical decisions: the seed is ignored', 'seed')
